@@ -152,6 +152,10 @@ pub fn all_entry_points(lang_code: &str, text: &str, th: f64) -> Result<usize, S
     let _ = no_panic("find_numbers_iter(stream with normalised lowercase forms)", || find_numbers_iter(norm_stream.iter(), lg, th).count())?;
     let _ = no_panic("replace_numbers_in_stream(normalised lowercase forms)", || replace_numbers_in_stream(norm_stream, lg, th).len())?;
     let _ = no_panic("get_interpreter_for", || get_interpreter_for(text).is_some())?;
+    // the word-group validator underneath text2digits, on the words as they are (not lowercased) and with an
+    // empty word in the group (what a caller splitting on single spaces hands over)
+    let _ = no_panic("exec_group(words)", || text2num::LangInterpreter::exec_group(lg, text.split_whitespace()).is_ok())?;
+    let _ = no_panic("exec_group(split on ' ')", || text2num::LangInterpreter::exec_group(lg, text.split(' ')).is_ok())?;
     Ok(n)
 }
 
@@ -161,7 +165,7 @@ impl Property for C03 {
         "C03"
     }
     fn rule(&self) -> String {
-        "Generated: (language, text, repeat, threshold) with text drawn from any::<String>(), \\PC*, whitespace-only, hyphen/apostrophe-only, a pool of hostile fragments (combining marks, non-Latin digits, ZWSP, BOM, NUL, ß, İ, ligatures, line separators), and the dirty sentence generator (vocabulary words glued, truncated, recased); repeat up to 2000 for long inputs; thresholds incl. NaN, ±inf, negative, subnormal. Every entry point (text2digits, replace_numbers_in_text, find_numbers, find_numbers_iter drained then polled twice, replace_numbers_in_stream, get_interpreter_for) is called under catch_unwind; text2digits must answer Err for texts without any alphanumeric character and never Ok(\"\"). Enumerated: every string of length <= 3 over a 9-character alphabet x 7 languages. Whole-run procedure: 29 very long inputs (400 000 / 2 000 000 repetitions of ordinary words, punctuation, hyphens, apostrophes, whitespace, conjunction/separator words; 8 000 / 40 000 repetitions of number words, decimals, ordinals; one-token hyphen chains and German/Italian/Dutch glued compounds of that length) are run through text2digits, replace_numbers_in_text, find_numbers and find_numbers_iter in a child process on a default 2 MiB thread stack; the child being killed (stack overflow, abort) or panicking is a violation attributed to the running input; exceeding the time cap is inconclusive. Non-trivial = distinct (lang,text) with no alphanumeric char, or a multi-byte char, or a hyphen/apostrophe at a token edge, or total length > 1000, or a non-finite threshold.".into()
+        "Generated: (language, text, repeat, threshold) with text drawn from any::<String>(), \\PC*, whitespace-only, hyphen/apostrophe-only, a pool of hostile fragments (combining marks, non-Latin digits, ZWSP, BOM, NUL, ß, İ, ligatures, line separators), and the dirty sentence generator (vocabulary words glued, truncated, recased); repeat up to 2000 for long inputs; thresholds incl. NaN, ±inf, negative, subnormal. Every entry point (text2digits, replace_numbers_in_text, find_numbers, find_numbers_iter drained then polled twice, replace_numbers_in_stream on whitespace-split own tokens and on own tokens whose lowercase form is normalised (punctuation stripped, possibly empty), the lazy search over the text's tokens followed by usize::MAX ordinary tokens, exec_group on the words as they are and on the text split on single spaces, get_interpreter_for) is called under catch_unwind; text2digits must answer Err for texts without any alphanumeric character and never Ok(\"\"). Enumerated: every string of length <= 3 over a 9-character alphabet x 7 languages. Whole-run procedure: 29 very long inputs (400 000 / 2 000 000 repetitions of ordinary words, punctuation, hyphens, apostrophes, whitespace, conjunction/separator words; 8 000 / 40 000 repetitions of number words, decimals, ordinals; one-token hyphen chains and German/Italian/Dutch glued compounds of that length) are run through text2digits, replace_numbers_in_text, find_numbers and find_numbers_iter in a child process on a default 2 MiB thread stack; the child being killed (stack overflow, abort) or panicking is a violation attributed to the running input; exceeding the time cap is inconclusive. Non-trivial = distinct (lang,text) with no alphanumeric char, or a multi-byte char, or a hyphen/apostrophe at a token edge, or total length > 1000, or a non-finite threshold.".into()
     }
     fn assumptions(&self) -> Vec<String> {
         vec!["non-termination would show as the watchdog expiring (exit 2, inconclusive), not as a violation".into()]
